@@ -6,8 +6,9 @@ import copy
 
 
 def still_fails(mod, case, cls):
+    from . import core
     try:
-        res = mod.run_case(case)
+        res = core.run_one(mod, case)      # (with the module's watchdog, if it has one)
     except Exception:
         return None
     for v in res['viol']:
